@@ -82,6 +82,25 @@ class FnTr:
         self.loop_mode = False
         self.kcontinue = None
 
+    def changed(self, stmts, env):
+        """variables of `env` the statements may give a new value: assigned names and - loop mode - the declared
+        list / dict locals changed through a method or a subscript store"""
+        out = [v for v in assigned(stmts) if v in env]
+        if self.loop_mode:
+            for st in stmts:
+                for n in ast.walk(st):
+                    base = None
+                    if isinstance(n, ast.Call) and isinstance(n.func, ast.Attribute):
+                        base = n.func.value
+                    elif isinstance(n, ast.Subscript) and isinstance(n.ctx, ast.Store):
+                        base = n.value
+                    while isinstance(base, ast.Subscript):
+                        base = base.value
+                    if isinstance(base, ast.Name) and env.get(base.id) in ('Registry', 'Stack', 'NIS', 'Vals') \
+                            and base.id not in out:
+                        out.append(base.id)
+        return out
+
     # hooks of loop mode (class LoopTr)
     def extra_stmt(self, st, rest, env, k, kx, reraise, cont):
         return None
@@ -361,7 +380,7 @@ class FnTr:
                 env_v = dict(env)
                 env_v[x] = 'V'
                 nb, sb = (st.body, st.orelse) if is_ else (st.orelse, st.body)
-                carried = [v for v in assigned([st]) if v in env and v != x]
+                carried = [v for v in self.changed([st], env) if v != x]
 
                 def make(kj):
                     kk = lambda env2: kj(self.merge(env, env2, carried))        # noqa: E731
@@ -372,7 +391,7 @@ class FnTr:
             t = self.test(st.test, env)
             if t is True or t is False:
                 return self.block((st.body if t else st.orelse) + rest, env, k, kx, reraise)
-            carried = [v for v in assigned([st]) if v in env]
+            carried = self.changed([st], env)
 
             def make(kj):
                 kk = lambda env2: kj(self.merge(env, env2, carried))            # noqa: E731
@@ -383,7 +402,7 @@ class FnTr:
         if isinstance(st, ast.Try):
             if st.orelse or st.finalbody or not st.handlers:
                 raise Unsupported(st, 'try with else / finally')
-            carried = [v for v in assigned([st]) if v in env]
+            carried = self.changed([st], env)
 
             def make(kj):
                 kk = lambda env2: kj(self.merge(env, env2, carried))            # noqa: E731
@@ -780,7 +799,7 @@ class LoopTr(FnTr):
         body = st.body[1:]
         res = L['result_var']
         # loop state: variables assigned in the body, and the declared mutable locals (changed through methods)
-        state = sorted({v for v in assigned(st.body) if v in env} | {v for v in L['locals'] if v in env})
+        state = sorted(self.changed(st.body, env))
         if res in env or res != vname:
             raise Unsupported(st, 'the loop result `%s`' % res)
         fixed = [v for v in env if v not in state]
